@@ -18,7 +18,7 @@ from ..flow import Defs, depends, affine, try_const
 from ..decide import table, ret_kind
 from ..axis import axis_reports
 from ..units import unit_reports, GU, PX, RES, ONE
-from ..util import keyword, returns_of, calls_in, inside, order_key
+from ..util import factors, sum_of_products, tiles_pattern_facts, keyword, returns_of, calls_in, inside, order_key
 
 NOT_DECIDED = ('all floating-point claims: containment of the point in its tile, shared edges, rounding (round(..., 12), // in '
                '_calc_grids), level choice within the stretch factor')
@@ -156,25 +156,26 @@ def c03d(ctx):
     forms = []
     for cls, tilecall in (('TileGrid', 'self.tile'), ('MetaGrid', 'self.grid.tile')):
         fn = ctx.fn('%s:%s.get_affected_level_tiles' % (G, cls))
-        defs = Defs(fn.node)
         calls = sorted([x for x in fn.walk() if is_call(x, tilecall)], key=order_key)
-        dl = [v for v, sel in defs.of('delta')]
-        ok = len(calls) == 2 and len(dl) == 1
+        ok = len(calls) == 2
         detail = ''
         if ok:
-            d = dl[0]
-            okd = isinstance(d, ast.BinOp) and isinstance(d.op, ast.Div) and 'resolutions[level]' in unparse(d.left) and isinstance(try_const(d.right), (int, float)) and try_const(d.right) > 1
-            a0 = [affine(a) for a in calls[0].args[:2]]
-            a1 = [affine(a) for a in calls[1].args[:2]]
-            want0 = [{'bbox[0]': 1, 'delta': 1}, {'bbox[1]': 1, 'delta': 1}]
-            want1 = [{'bbox[2]': 1, 'delta': -1}, {'bbox[3]': 1, 'delta': -1}]
-
-            def strip(a):
-                return {k: v for k, v in (a or {}).items() if not (k == '' and v == 0)}
-            ok = okd and [strip(x) for x in a0] == want0 and [strip(x) for x in a1] == want1
+            # closed forms of the corner coordinates: bbox[k] +/- D with one D = <resolution of the level> / const (the inset may or may
+            # not be held in a local)
+            def corner(e):
+                e = fn.canon.expr(e)
+                if isinstance(e, ast.BinOp) and isinstance(e.op, (ast.Add, ast.Sub)):
+                    return unparse(e.left), (1 if isinstance(e.op, ast.Add) else -1), e.right
+                return None, 0, None
+            cs = [corner(a) for c in calls for a in c.args[:2]]
+            ds = {unparse(c[2]) for c in cs if c[2] is not None}
+            d = cs[0][2]
+            okd = len(ds) == 1 and isinstance(d, ast.BinOp) and isinstance(d.op, ast.Div) and 'resolutions[level]' in unparse(d.left) and \
+                isinstance(try_const(d.right), (int, float)) and try_const(d.right) > 1
+            ok = okd and [(c[0], c[1]) for c in cs] == [('bbox[0]', 1), ('bbox[1]', 1), ('bbox[2]', -1), ('bbox[3]', -1)]
             ok = ok and all(unparse(c.args[2]) == 'level' for c in calls)
-            detail = 'corners %s / %s, delta %s' % ([unparse(a) for a in calls[0].args[:2]], [unparse(a) for a in calls[1].args[:2]], unparse(d))
-            forms.append((unparse(d).replace('self.grid.', 'self.'), [unparse(a) for c in calls for a in c.args[:2]]))
+            detail = 'corners %s / %s' % ([fn.ctext(a) for a in calls[0].args[:2]], [fn.ctext(a) for a in calls[1].args[:2]])
+            forms.append((sorted(x.replace('self.grid.', 'self.') for x in ds), [(c[0], c[1]) for c in cs]))
         ctx.check(ok, '%s.get_affected_level_tiles:inset-both-corners' % cls,
                   'lower-left corner + delta and upper-right corner - delta with one delta = resolution / const', fn,
                   fail='the 1/10-pixel inset is not applied symmetrically to both corners (%s): tiles that are only touched are reported, or touched ones on one side' % detail)
@@ -277,18 +278,17 @@ def c03f(ctx):
     r = returns_of(to.node)
     ok = len(r) == 1 and isinstance(r[0].value, ast.Tuple) and len(r[0].value.elts) == 2
     if ok:
-        ex, ey = r[0].value.elts
-
-        def form(e, op):
-            return isinstance(e, ast.BinOp) and isinstance(e.op, ast.Mult) and isinstance(e.left, ast.BinOp) and isinstance(e.left.op, op) and \
-                unparse(e.left.left) == to.params[1] and unparse(e.left.right) == 'self.tile_grid[0]'
-        ok = form(ex, ast.Mod) and form(ey, ast.FloorDiv) and unparse(ex.right) == 'self.tile_size[0]' and unparse(ey.right) == 'self.tile_size[1]'
+        # closed forms (divmod and named quotient / remainder are written out), products in any order
+        ex, ey = to.canon.expr(r[0].value).elts
+        i = to.params[1]
+        ok = factors(ex) == sorted(['%s%%self.tile_grid[0]' % i, 'self.tile_size[0]']) and \
+            factors(ey) == sorted(['%s//self.tile_grid[0]' % i, 'self.tile_size[1]'])
     ctx.check(ok, 'TileMerger._tile_offset:row-major-reader', 'tile i is placed at (i % W * tile_w, i // W * tile_h) with W = tile_grid[0]: the reader of the row-major order', to,
               fail='the mosaic does not decompose the list index as (i % W, i // W) with W = tile_grid[0]')
     tp = ctx.fn(G + ':MetaGrid._tiles_pattern')
-    ok = any(isinstance(x, ast.Subscript) and unparse(x.value) == 'tiles' and unparse(x.slice).replace(' ', '') == 'j+i*grid_size[0]' for x in tp.walk())
-    lo = [s for s in tp.walk() if isinstance(s, ast.For)]
-    ok = ok and len(lo) == 2 and unparse(lo[0].iter) == 'range(grid_size[1])' and unparse(lo[1].iter) == 'range(grid_size[0])'
+    pf = tiles_pattern_facts(tp)
+    ok = pf is not None and pf['outer_iter'] == 'range(grid_size[1])' and pf['inner_iter'] == 'range(grid_size[0])' and \
+        pf['index'] == sorted([[pf['col']], sorted([pf['row'], 'grid_size[0]'])])
     ctx.check(ok, 'MetaGrid._tiles_pattern:row-major-reader', 'the crop pattern reads the tile list as tiles[col + row * W]', tp)
 
 
